@@ -63,6 +63,6 @@ def remove_indentation(source: str) -> str:
         return ''
 
     indent = min(spaces)
-    # a whitespace-only line carries no indentation of its own: it is re-indented as an empty line on output
-    lines = [l[indent:] if l and not l.isspace() else '' for l in lines]
+    # a line of blanks carries no indentation of its own: it is re-indented as an empty line on output
+    lines = [l[indent:] if l.strip(' \t') else '' for l in lines]
     return '\n'.join(lines)
